@@ -36,6 +36,19 @@ def setup_impl_env():
     atexit.register(lambda: shutil.rmtree(tmp, ignore_errors=True))
     import logging
     logging.disable(logging.CRITICAL)
+    # aw_core.dirs.ensure_path_exists is check-then-makedirs (no exist_ok): workers forked later that open their
+    # first storage at the same moment can race on it (seen once as FileExistsError in C03).  Create the
+    # directories here, in the parent, before anything forks.
+    for sub in ("aw-server", "aw-core"):
+        try:
+            os.makedirs(os.path.join(os.environ["XDG_DATA_HOME"], "activitywatch", sub), exist_ok=True)
+        except OSError:
+            pass
+    try:
+        from aw_core.dirs import get_data_dir
+        get_data_dir("aw-server")
+    except Exception:  # noqa: BLE001 -- a tree whose dirs module is broken is reported by the check proper
+        pass
     return tmp
 
 
